@@ -2,8 +2,9 @@
    Statements only; proofs in ArchiveEvolve_lemmas.v / Archive_lemmas.v / RateLimiter_lemmas.v. *)
 From Coq Require Import ZArith List Bool String.
 From GCA Require Import Wrap Bytes Codec Amap Timeslot Server ServerInv ServerDisk ServerReach_lemmas ServerFull_lemmas
-                        Archive ArchiveEvolve_lemmas Archive_lemmas RateLimiter Props.C19.
-From GCAgen Require ConstsProd ConstsTest.
+                        Archive ArchiveEvolve_lemmas Archive_lemmas RateLimiter Props.C19
+                        Skel SkelSpec Skel_lemmas SkelObligations.
+From GCAgen Require ConstsProd ConstsTest SkelServer.
 Import ListNotations.
 Open Scope Z_scope.
 
@@ -59,6 +60,13 @@ End C14.
    are the limiter's granted calls: at most apiArchiveLimit of them in any window of apiArchiveRate *)
 Definition archive_limiter : rl_cfg :=
   {| r_limit := ConstsProd.server_apiArchiveLimit; r_rate := ConstsProd.server_apiArchiveRateMs |}.
+(* the limiter the bound is about is ONE object per server: every field of the server structure that
+   is classified static (ApiArchiveRateLimiter among them) is written only while the server is being
+   constructed -- re-checked on the skeletons regenerated from the source on every run *)
+Theorem c14_limiter_is_one_object :
+  static_writers_ok server_fields server_fns SkelServer.field_writers = true.
+Proof. exact (proj1 (proj2 (proj2 (proj2 skel_server_translated)))). Qed.
+
 Theorem c14_rate (nows : list Z) (w : Z) : nondecr nows ->
   rl_len (filter (in_window archive_limiter w) (snd (rl_run archive_limiter nows))) <= Z.max 0 ConstsProd.server_apiArchiveLimit.
 Proof. exact (c19_safety archive_limiter nows w). Qed.
